@@ -421,10 +421,46 @@ func genZone(rng *mrand.Rand, in input) *dohfake.Zone {
 			z.Poison[k] = p
 		}
 	}
+	// partial failure on a service target: the A lookup of a named TargetName of the records at the end of the
+	// alias chain succeeds with addresses, its AAAA lookup alone fails ("authoritative server chokes on AAAA")
+	if in.Class == "normal" && rng.IntN(10) < 6 {
+		var named []*dohfake.HTTPS
+		e := walk(z, in.Svcb)
+		for _, h := range e.svc { // not the names whose own address lookup decides the call
+			if !isRoot(h.Target) && h.Target != in.Host && h.Target != e.Chain[len(e.Chain)-1] {
+				named = append(named, h)
+			}
+		}
+		if len(named) > 0 {
+			h := named[rng.IntN(len(named))]
+			a, rc := addrsOf(z, h.Target, dohfake.TypeA)
+			if rc == 0 && len(a) == 0 && len(cnameChain(z, h.Target)) == 1 {
+				z.Add(dohfake.Addr(h.Target, goodAddr(rng, false), ttl(rng)))
+				a, rc = addrsOf(z, h.Target, dohfake.TypeA)
+			}
+			if rc == 0 && len(a) > 0 {
+				if len(h.ECH) == 0 {
+					h.ECH = []byte("ok:partial:" + letters(rng, 6))
+				}
+				z.Rcode[dohfake.Key{Name: h.Target, Type: dohfake.TypeAAAA}] = 1 + rng.IntN(5)
+			}
+		}
+	}
 	return z
 }
 
 // ---- what the universe says (oracle side) ----
+
+// addrsOf: the addresses of one family the zone gives for name (through its CNAME chain) and the response code.
+func addrsOf(z *dohfake.Zone, name string, qtype uint16) (ips []netip.Addr, rc int) {
+	rrs, rc := z.Lookup(name, qtype, 0)
+	for _, rr := range rrs {
+		if rr.Type == qtype {
+			ips = append(ips, rr.Addr)
+		}
+	}
+	return ips, rc
+}
 
 func httpsAt(z *dohfake.Zone, name string) (recs []*dohfake.HTTPS, rc int) {
 	rrs, rc := z.Lookup(name, dohfake.TypeHTTPS, 0)
@@ -557,14 +593,15 @@ func TestCheck(t *testing.T) {
 	r := mon.Start(t, "C14", "exploration")
 	defer r.Finish()
 	r.SetRule("seed-determined DNS universes over 12 short names + 2 attacker names (A/AAAA 0..3, CNAMEs incl. loops, HTTPS alias chains of 0..8 hops ending in service records / nothing / NXDOMAIN / a loop / a self alias / alias to '.', " +
-		"service records with priorities, '.'/named targets, ports, alpn, ech, hints; forced rcodes 1..5 per (name, qtype); poisoned answers owned by unrelated names before/after the genuine ones; NXDOMAIN or no-data for unknown names; name compression on/off) " +
+		"service records with priorities, '.'/named targets, ports, alpn, ech, hints; forced rcodes 1..5 per (name, qtype); service targets whose A lookup succeeds while their AAAA lookup alone fails; poisoned answers owned by unrelated names before/after the genuine ones; NXDOMAIN or no-data for unknown names; name compression on/off) " +
 		"x name forms host, host:port, scheme://host[:port]/path, ports {0,80,443,8443,65535}, schemes {https,http,foo,wss,mixed case, 62/63/64/254/255/300 letters}, hosts with 63/64-byte labels and totals 253/254/255/256/300. " +
 		"distinct = distinct (input class, form, port class, scheme class, alias hops, chain end kind, rcodes served, poisoned) classes that reached Resolve")
 	r.Assume("internal/dohfake: responses built with x/net dnsmessage.Builder and an own RFC 9460 RDATA encoder, queries judged by a literal label walk and dnsmessage.Parser",
 		"the universe (Zone.Lookup) answers like a recursive resolver: CNAME RRs first, then the RRSet at the end of the chain",
 		"RRSets are either one alias-mode record or service-mode records only (mixed sets, on which the statement is silent, are not generated)",
 		"address order inside an RRSet is not judged; ties in priority may come in any order",
-		"port 0 is treated as 'no port given'; an rcode other than NXDOMAIN on an HTTPS lookup may be reported as an error or ignored, errors on lookups of service targets may be ignored")
+		"port 0 is treated as 'no port given'; an rcode other than NXDOMAIN on an HTTPS lookup may be reported as an error or ignored, errors on lookups of service targets may be ignored",
+		"'together with their targets' addresses' is read as: every address the resolver was actually given for the target of a returned record - an A (AAAA) query for that target which the server log shows answered NOERROR must have its addresses in Additional[target] even when the AAAA (A) query for the same target failed; a family whose own query failed or was never sent is not demanded, and nothing the zone does not give may appear")
 
 	// One listener per worker for the whole run (a listener per case exhausts the loopback port space).
 	workers := runtime.GOMAXPROCS(0)
@@ -883,7 +920,15 @@ func TestCheck(t *testing.T) {
 			ips, _, _ := addrsAt(z, end)
 			viol("Q4:address-mismatch", "addresses [%s], the zone gives [%s] for %s (candidates %v)", got, ipKey(ips), end, cands)
 		}
-		targets := map[string]bool{}
+		targets, partialDone := map[string]bool{}, map[string]bool{}
+		answeredOK, answeredFail := map[dohfake.Key]bool{}, map[dohfake.Key]bool{}
+		for _, q := range qlog {
+			if q.Status == 200 && q.Rcode == 0 {
+				answeredOK[dohfake.Key{Name: q.Name, Type: q.Type}] = true
+			} else {
+				answeredFail[dohfake.Key{Name: q.Name, Type: q.Type}] = true
+			}
+		}
 		for _, h := range res.HTTPS {
 			if h.Target == "" {
 				continue
@@ -895,6 +940,32 @@ func TestCheck(t *testing.T) {
 				viol("Q4:additional-mismatch", "Additional[%s] = [%s], the zone gives [%s]", h.Target, have, ipKey(ips))
 			} else if have != "" {
 				r.Count("additional_checked", 1)
+			}
+			if partialDone[h.Target] || (rcA == 0 && rcAAAA == 0) {
+				continue
+			}
+			// One family failed. "together with their targets' addresses" = every address the resolver was
+			// actually given for the target of a returned record: what a query answered NOERROR (server log)
+			// delivered must be there, whatever happened to the other family. A family whose own query failed
+			// or was never sent is not demanded.
+			partialDone[h.Target] = true
+			hs := "," + have + ","
+			for _, typ := range []uint16{dohfake.TypeA, dohfake.TypeAAAA} {
+				given, _ := addrsOf(z, h.Target, typ)
+				if !answeredOK[dohfake.Key{Name: strings.ToLower(h.Target), Type: typ}] || len(given) == 0 {
+					continue
+				}
+				other := dohfake.Key{Name: strings.ToLower(h.Target), Type: dohfake.TypeA + dohfake.TypeAAAA - typ}
+				if answeredFail[other] {
+					r.Count("target_partial_failures", 1)
+				}
+				for _, a := range given {
+					if !strings.Contains(hs, ","+a.String()+",") {
+						viol("Q4:target-addresses-dropped-after-partial-failure", "the type %d query for %s, target of the returned record {%s}, was answered NOERROR with [%s] but Additional[%s] = [%s] (A rcode %d, AAAA rcode %d)",
+							typ, h.Target, h, ipKey(given), h.Target, have, rcA, rcAAAA)
+						break
+					}
+				}
 			}
 		}
 		for tname, ips := range res.Additional {
@@ -919,6 +990,7 @@ func TestCheck(t *testing.T) {
 	r.Floor("overlong_inputs", int64(len(specials)))
 	r.Floor("strict_equality_checks", int64(n)/20)
 	r.Floor("results_with_https", int64(n)/20)
+	r.Floor("target_partial_failures", int64(n)/50)
 }
 
 // distinctRcodes: sorted distinct rcodes served, NXDOMAIN on HTTPS lookups left out.
